@@ -17,7 +17,19 @@ ASSUMPTIONS = [
 EXPLANATION = ("theorems: refinement of ParameterTable to an insertion-ordered map for all op sequences; "
                "RowCollector row preservation and sort = row permutation; grid bijection; Cartesian product laws")
 
-KEYS = ["aa", "bb", "cc", "dd", "k1", "x.y", "Zz", "_off", "__raw"]
+KEYS = ["aa", "bb", "cc", "dd", "k1", "x.y", "Zz", "_off", "__raw", "t:H1", "f:2.5", "n:None"]
+# keys written "t:…", "f:…", "n:…" stand for the non-string keys ('H', 1), 2.5 and None: the real table gets
+# the object, the model its name (keys are opaque to the model); attribute access is only tried for strings
+OBJ_KEYS = {"t:H1": ("H", 1), "f:2.5": 2.5, "n:None": None}
+OBJ_NAMES = {repr(v): k for k, v in OBJ_KEYS.items()}
+
+
+def real_key(k):
+    return OBJ_KEYS[k] if k in OBJ_KEYS else "".join(list(k))
+
+
+def key_name(k):
+    return k if isinstance(k, str) else OBJ_NAMES.get(repr(k), repr(k))
 SETTINGS = ["p", "q"]
 
 
@@ -57,7 +69,9 @@ def impl_table(ops):
         # keys are rebuilt for every operation: equal to, but never the same object as, the key
         # that was stored (an implementation comparing keys by identity must not get away with it)
         if len(op) > 1 and isinstance(op[1], str):
-            op = [op[0], "".join(list(op[1]))] + list(op[2:])
+            op = [op[0], real_key(op[1])] + list(op[2:])
+            if op[0] == "getkey" and not isinstance(op[1], str):
+                op[2] = "item"          # attribute access exists for string keys only
         try:
             if op[0] == "append":
                 if op[3] == "append":
@@ -76,9 +90,9 @@ def impl_table(ops):
             elif op[0] == "len":
                 outs.append({"nat": len(t)})
             elif op[0] == "keys":
-                outs.append({"keys": list(t.keys())})
+                outs.append({"keys": [key_name(k) for k in t.keys()]})
             elif op[0] == "items":
-                outs.append({"items": [[k, rec(v)] for k, v in t.items()]})
+                outs.append({"items": [[key_name(k), rec(v)] for k, v in t.items()]})
             elif op[0] == "contains":
                 outs.append({"bool": op[1] in t})
         except Exception:
@@ -245,6 +259,45 @@ def impl_rc(names, ops):
     return outs, mops
 
 
+CELLS = [1, 2, 3, 2 ** 60 + 1, 2 ** 60 + 2, 1.5, 2.5, 0.1, "neutron", "3", "1.5", True, None]
+
+
+def ctor_stream(ctx, count):
+    """Rows handed to the constructor (and appended later) with cells of mixed types: every cell must be
+    stored as the object given.  Cells are opaque to the model: each distinct (type, value) gets a number."""
+    from scinumtools import RowCollector
+    for _ in range(count):
+        ncols = ctx.rng.randint(1, 4)
+        names = ["c%d" % i for i in range(ncols)]
+        pool = ctx.rng.sample(CELLS, ctx.rng.randint(2, len(CELLS)))
+        first = [[ctx.rng.choice(pool) for _ in names] for _ in range(ctx.rng.randint(0, 4))]
+        later = [[ctx.rng.choice(pool) for _ in names] for _ in range(ctx.rng.randint(0, 3))]
+        codes = {}
+
+        def enc(v):
+            return codes.setdefault((type(v).__name__, repr(v)), len(codes))
+        want = [[enc(v) for v in row] for row in first + later]
+        ctx.case(["rc-ctor", names, [[repr(v) for v in r] for r in first + later]], len(first) > 0 and len(pool) > 2,
+                 {"rc_ctor_rows": [[repr(v) for v in r] for r in first][:3]} if first else None)
+        ctx.count("rc.ctor_cases")
+        try:
+            rc = RowCollector(list(names), rows=[list(r) for r in first]) if first else RowCollector(list(names))
+            for r in later:
+                rc.append(list(r))
+            cols = [list(getattr(rc, n)) for n in names]
+            got = [[enc(c[i]) for c in cols] for i in range(rc.size())]
+        except Exception as e:
+            got = "err:%r" % (e,)
+        r = ctx.driver.ask({"p": "C20", "k": "rc", "names": names, "ops": [["row", w] for w in want]})
+        spec = r["ok"][-1]["spec"] if "ok" in r and r["ok"] else ([] if not want else None)
+        if got != spec:
+            ctx.violation("rc:ctor-rows",
+                          "RowCollector(%s, rows=%s) + appended %s stores %s (cells numbered by (type, value)), the "
+                          "list-of-rows specification gives %s" % (names, first, later, got, spec),
+                          {"stream": "rc-ctor", "names": names, "rows": [[repr(v) for v in x] for x in first],
+                           "appended": [[repr(v) for v in x] for x in later], "impl": got, "spec": spec})
+
+
 def rc_stream(ctx, count, maxlen):
     cases = [(["x", "y"], [["row", [3, 1]], ["row", [1, 2]], ["dict", [["y", 0], ["x", 2]]],
                            ["sort", 0, False], ["sort", 1, True], ["row", [2, 2]], ["sort", 0, True]])]
@@ -365,6 +418,7 @@ def correspond(ctx: Ctx):
     table_stream(ctx, 4000 if thorough else 600, 200 if thorough else 30)
     ltable_stream(ctx, 2000 if thorough else 300, 60 if thorough else 20)
     rc_stream(ctx, 3000 if thorough else 500, 60 if thorough else 15)
+    ctor_stream(ctx, 400 if thorough else 60)
     grid_stream(ctx, 120 if thorough else 40, 12 if thorough else 8)
     combo_stream(ctx, 2000 if thorough else 300)
     ctx.extra["exhaustive_part"] = "grid: all n<=%d, ncols<=%d, 4 modes" % ((120, 12) if thorough else (40, 8))
